@@ -112,3 +112,108 @@ func TestC02ReejectionAtExpiry(t *testing.T) {
 }
 
 func addr(k int) string { return fmt.Sprintf("10.%d.%d.%d:40000", 1+(k>>16)&0x7f, (k>>8)&0xff, k&0xff) }
+
+// One backend keeps being ejected and re-admitted while requests run on real threads; the other
+// backends are healthy throughout, so no request may be answered "no healthy backend" - whatever
+// instant of a transition a pick observes. Each health state is held for 0.2-1 ms, far longer than
+// a request takes, so that the dispatcher's bounded number of pick attempts cannot all collide
+// with a transition on a correct tree.
+func TestC02NoRefusalWhileOneBackendFlaps(t *testing.T) {
+	const name = "no-503-while-one-backend-flaps"
+	sub := lab.Sub(name, "real-thread stress through the real balancer (scripted RoundTripper): pool of 2-6 backends under each of the 5 strategies; one goroutine ejects backend k (each k in turn) and lets it expire, over and over - either holding each state 0.2-1 ms while 2-16 goroutines send requests through ServeHTTP, or as fast as it can while they pick through lb.NextBackend; "+
+		"oracle: no request is answered 503 / no pick comes back empty (the other n-1 backends are healthy throughout); "+
+		"every round is non-trivial; distinct = strategy x pool size x flapping backend x goroutines")
+	if lab.Replaying() {
+		t.Skip()
+	}
+	rounds := lab.Share(lab.Scale(160, 4000))
+	var cur atomic.Value
+	cur.Store("")
+	wd := lab.StartWatchdog(t.Name(), name, lab.NoProgress, func() any { return cur.Load() })
+	defer func() { wd.Stop() }()
+	for r := 0; r < rounds; r++ {
+		wd.Stop()
+		wd = lab.StartWatchdog(t.Name(), name, lab.NoProgress, func() any { return cur.Load() })
+		k := r*lab.Shards() + lab.Shard()
+		st := lab.Strategies[k%len(lab.Strategies)]
+		n := 2 + (k/5)%5
+		flap := (k / 25) % n
+		G := []int{2, 4, 8, 16}[(k/7)%4]
+		fast := (k/3)%2 == 0
+		c := map[string]any{"strategy": st, "backends": n, "flapping": flap, "goroutines": G, "fast_flapping_with_direct_picks": fast}
+		cur.Store(fmt.Sprint(c))
+		lb, err := loadbalancer.NewLoadBalancer(lab.BaseConfig(st, lab.Ones(n)))
+		if err != nil {
+			t.Fatal(err)
+		}
+		fn := lab.NewFakeNet()
+		fn.Install(lb)
+		var fb *loadbalancer.Backend
+		for _, b := range lb.VerifBackends() {
+			if b.URL.Host == lab.BackendHost(flap) {
+				fb = b
+			}
+		}
+		var stop, ready, goFlag int32
+		var fwg, wg sync.WaitGroup
+		fwg.Add(1)
+		go func() {
+			defer fwg.Done()
+			for atomic.LoadInt32(&goFlag) == 0 {
+				runtime.Gosched()
+			}
+			for j := 0; atomic.LoadInt32(&stop) == 0; j++ {
+				if fast {
+					// as fast as it can: ejected for 1 ns, re-admitted by the expiry check
+					lb.MarkBackendUnhealthy(fb, time.Nanosecond)
+					for !lb.IsBackendHealthy(fb) {
+					}
+					continue
+				}
+				hold := time.Duration(200+(j%5)*200) * time.Microsecond
+				lb.MarkBackendUnhealthy(fb, hold)
+				time.Sleep(2 * hold)
+			}
+		}()
+		var viol atomic.Value
+		for g := 0; g < G; g++ {
+			wg.Add(1)
+			go func(g int) {
+				defer wg.Done()
+				atomic.AddInt32(&ready, 1)
+				for atomic.LoadInt32(&goFlag) == 0 {
+					runtime.Gosched()
+				}
+				if fast {
+					// picks through lb.NextBackend: a pick that comes back empty is what the dispatcher answers 503 for
+					req := lab.Request("GET", "/f", addr(1+g), nil)
+					for i := 0; i < 20000 && viol.Load() == nil; i++ {
+						if b := lb.NextBackend(req); b == nil {
+							viol.CompareAndSwap(nil, fmt.Sprintf("a pick came back empty (the dispatcher answers such a request 503) while only b%d of %d backends was being ejected and re-admitted (strategy %s); the other %d are healthy throughout", flap, n, st, n-1))
+						}
+					}
+					return
+				}
+				for i := 0; i < 150 && viol.Load() == nil; i++ {
+					status, _, _, _ := lab.Serve(lb, lab.Request("GET", "/f", addr(1+g*1000+i), nil))
+					if status != 200 {
+						viol.CompareAndSwap(nil, fmt.Sprintf("a request was answered %d while only b%d of %d backends was being ejected and re-admitted (strategy %s); the other %d are healthy throughout and answer 200", status, flap, n, st, n-1))
+					}
+				}
+			}(g)
+		}
+		for atomic.LoadInt32(&ready) < int32(G) {
+			runtime.Gosched()
+		}
+		atomic.StoreInt32(&goFlag, 1)
+		wg.Wait()
+		atomic.StoreInt32(&stop, 1)
+		fwg.Wait()
+		lb.Stop()
+		sub.Case(c, true, st)
+		if v := viol.Load(); v != nil {
+			lab.Violation(t, name, c, "%s", v.(string))
+			return
+		}
+	}
+}
